@@ -10,7 +10,12 @@ WIRE = [("wire-counter", {"quick": ["-n", "40"], "thorough": ["-n", "1500"], "se
 WIREF = [(n, {k: v + ["-faults"] for k, v in a.items()}) for (n, a) in WIRE]
 SRV_TRUST = ["in-memory MongoDB wire-protocol server (harness/fakemongo) standing in for mongod: unique _id, ordered insertMany, upsert, find with sort — assumed to match MongoDB for the operators orda uses",
              "in-process MQTT broker (harness/fakemqtt) recording publishes"]
+API = [("api-counter", {"quick": ["-n", "60"], "thorough": ["-n", "3000"], "search": ["-n", "1000"]}),
+       ("api-map", {"quick": ["-n", "100"], "thorough": ["-n", "4000"], "search": ["-n", "1500"]}),
+       ("api-list", {"quick": ["-n", "100"], "thorough": ["-n", "4000"], "search": ["-n", "1500"]})]
 PROPS = {
+    "C03": {"slices": API, "trusted": [], "assumptions": ["Document is not modelled yet"]},
+    "C04": {"slices": [CRDT[2], API[2]], "trusted": [], "assumptions": ["order agreement ACROSS replicas rests on list convergence (C01, list instance not yet proved)"]},
     "C05": {"slices": WIRE, "trusted": SRV_TRUST, "assumptions": ["the composition of the proved ingredients over Net.v is not yet a theorem (C05_statement_list is a definition)"]},
     "C07": {"slices": WIREF, "trusted": SRV_TRUST, "assumptions": ["faults exercised: duplicated request, dropped response + retry; delayed (stale) responses are not driven", "C07_statement_list is a definition, not yet a theorem"]},
     "C06": {"slices": WIRE + WIREF, "trusted": SRV_TRUST, "assumptions": ["handlers of one datatype run one at a time (the lock, C12)", "no storage fault during the request (C08)"]},
